@@ -1,7 +1,8 @@
 CONSTANTS HW = 10
-          Margins = {21}
+          Margins = {1}
           Anchors = {1}
           NMax = 8
+          MCMod = 1
           GenMod = 1
           TPad = 3
 INIT Init
